@@ -266,29 +266,64 @@ enum NEv {
     Attach(String),
 }
 
-/// Projects a history onto the top-level steps tagged `tag`, with identities normalised so that the
-/// projection of an interleaved run can be compared with a solo run.
-fn project(h: &History, tag: u8) -> Vec<NEv> {
-    // owner and per-owner ordinal of every puppet instance
-    let mut owner: std::collections::BTreeMap<(u8, u16), (u8, usize)> = Default::default();
+/// Owner (subscription tag) of every log event, by identity of the actor: a probe's events belong to
+/// that probe; a puppet instance belongs to the subscription in whose context it was created (the
+/// innermost enclosing event's owner, else the step's tag); closure / iterator calls belong to the
+/// innermost enclosing event. Also returns, per event, the owner of its enclosing context.
+fn owners(h: &History) -> (Vec<u8>, Vec<u8>, std::collections::BTreeMap<(u8, u16), (u8, usize)>) {
+    let mut own = vec![255u8; h.log.len()];
+    let mut ctx = vec![255u8; h.log.len()];
+    let mut inst_owner: std::collections::BTreeMap<(u8, u16), (u8, usize)> = Default::default();
     let mut per_owner: std::collections::BTreeMap<(u8, u8), usize> = Default::default();
-    let mut cur = 0u8;
-    for ev in &h.log {
+    let mut base = 0u8;
+    let mut stack: Vec<(usize, u8)> = vec![];
+    for (i, ev) in h.log.iter().enumerate() {
+        let cur = stack.last().map_or(base, |s| s.1);
+        ctx[i] = cur;
         match ev {
-            Ev::Step { tag, .. } => cur = *tag,
-            Ev::Enter(Site::PupRecv { pup, inst, msg: M::Handshake }) => {
-                let k = per_owner.entry((*pup, cur)).or_default();
-                owner.insert((*pup, *inst), (cur, *k));
-                *k += 1;
+            Ev::Step { tag, .. } => {
+                base = *tag;
+                stack.clear();
+                own[i] = *tag;
             }
-            _ => {}
+            Ev::Enter(site) => {
+                let o = match site {
+                    Site::SinkRecv { sink, .. } | Site::SinkSend { sink, .. } => *sink,
+                    Site::PupRecv { pup, inst, msg: M::Handshake } if !inst_owner.contains_key(&(*pup, *inst)) => {
+                        let k = per_owner.entry((*pup, cur)).or_default();
+                        inst_owner.insert((*pup, *inst), (cur, *k));
+                        *k += 1;
+                        cur
+                    }
+                    Site::PupRecv { pup, inst, .. } | Site::PupSend { pup, inst, .. } => {
+                        inst_owner.get(&(*pup, *inst)).map_or(cur, |x| x.0)
+                    }
+                    _ => cur,
+                };
+                own[i] = o;
+                stack.push((i, o));
+            }
+            Ev::Exit(e) => {
+                own[i] = own[*e];
+                while let Some((k, _)) = stack.pop() {
+                    if k == *e {
+                        break;
+                    }
+                }
+            }
+            Ev::Attach { sink, .. } => own[i] = *sink,
+            _ => own[i] = cur,
         }
     }
+    (own, ctx, inst_owner)
+}
+
+/// The events that belong to subscription `tag`, with identities normalised so that an interleaved run
+/// can be compared with a solo run of that subscription.
+fn project(h: &History, tag: u8) -> Vec<NEv> {
+    let (own, _ctx, inst_owner) = owners(h);
     let mut errs: Vec<u32> = vec![];
-    let mut out = vec![];
-    let mut cur = 0u8;
-    let mut depth_stack: Vec<bool> = vec![]; // whether the Enter was kept
-    let mut norm_msg = |m: &M, errs: &mut Vec<u32>| -> String {
+    let norm_msg = |m: &M, errs: &mut Vec<u32>| -> String {
         match m {
             M::Error(e) => {
                 let k = match errs.iter().position(|x| x == e) {
@@ -303,67 +338,85 @@ fn project(h: &History, tag: u8) -> Vec<NEv> {
             other => other.short(),
         }
     };
-    for ev in &h.log {
-        if let Ev::Step { tag: t, .. } = ev {
-            cur = *t;
-            depth_stack.clear();
-            if cur == tag {
-                out.push(NEv::Step);
-            }
-            continue;
-        }
-        if cur != tag {
+    let mut out = vec![];
+    for (i, ev) in h.log.iter().enumerate() {
+        if own[i] != tag {
             continue;
         }
         match ev {
             Ev::Enter(site) => {
                 let s = match site {
-                    Site::SinkRecv { sink, sub, msg } => {
-                        format!("{}.{sub}<{}", if *sink == tag { "S".to_string() } else { format!("X{sink}") }, norm_msg(msg, &mut errs))
-                    }
-                    Site::SinkSend { sink, sub, msg } => {
-                        format!("{}.{sub}>{}", if *sink == tag { "S".to_string() } else { format!("X{sink}") }, norm_msg(msg, &mut errs))
-                    }
+                    Site::SinkRecv { sub, msg, .. } => format!("S.{sub}<{}", norm_msg(msg, &mut errs)),
+                    Site::SinkSend { sub, msg, .. } => format!("S.{sub}>{}", norm_msg(msg, &mut errs)),
                     Site::PupRecv { pup, inst, msg } => {
-                        let (o, k) = owner.get(&(*pup, *inst)).copied().unwrap_or((255, 0));
-                        format!("p{pup}.{}<{}", if o == tag { format!("{k}") } else { format!("X{o}:{k}") }, norm_msg(msg, &mut errs))
+                        let k = inst_owner.get(&(*pup, *inst)).map_or(0, |x| x.1);
+                        format!("p{pup}.{k}<{}", norm_msg(msg, &mut errs))
                     }
                     Site::PupSend { pup, inst, msg } => {
-                        let (o, k) = owner.get(&(*pup, *inst)).copied().unwrap_or((255, 0));
-                        format!("p{pup}.{}>{}", if o == tag { format!("{k}") } else { format!("X{o}:{k}") }, norm_msg(msg, &mut errs))
+                        let k = inst_owner.get(&(*pup, *inst)).map_or(0, |x| x.1);
+                        format!("p{pup}.{k}>{}", norm_msg(msg, &mut errs))
                     }
                     other => other.short(),
                 };
                 out.push(NEv::Enter(s));
-                depth_stack.push(true);
             }
-            Ev::Exit(_) => {
-                out.push(NEv::Exit);
-                depth_stack.pop();
-            }
+            // returns are not compared: a cross-subscription action nests this subscription's events
+            // inside the other one's handlers, which changes where deliveries return but not their order
+            Ev::Exit(_) => {}
             Ev::Call { kind, id, arg, ret } => out.push(NEv::Call(format!("{kind:?}#{id}({arg:?})={ret:?}"))),
             Ev::Panic { message, .. } => out.push(NEv::Panic(message.clone())),
-            Ev::Attach { sink, sub } => out.push(NEv::Attach(format!("{}.{sub}", if *sink == tag { "S".to_string() } else { format!("X{sink}") }))),
+            Ev::Attach { sub, .. } => out.push(NEv::Attach(format!("S.{sub}"))),
             Ev::Step { .. } => {}
         }
     }
     out
 }
 
-/// The solo scenario of subscription `tag`: only its steps, its sink spec as probe 0.
-fn solo(sc: &Scenario, tag: u8) -> Scenario {
+/// The solo scenario of subscription `tag`: its own steps, its sink spec as probe 0, and one top-level
+/// Pull for every Pull that the OTHER subscription's handlers issued on its talkback in the
+/// interleaved run (cross-subscription actions), at the same place in its own order of events.
+fn solo(sc: &Scenario, h: &History, tag: u8) -> Scenario {
+    let (own, ctx, _) = owners(h);
+    // cross-issued pulls per schedule step
+    let mut cross: std::collections::BTreeMap<usize, usize> = Default::default();
+    let mut step_k: Option<usize> = None;
+    for (i, ev) in h.log.iter().enumerate() {
+        match ev {
+            Ev::Step { k, .. } => step_k = if *k == usize::MAX { None } else { Some(*k) },
+            Ev::Enter(Site::SinkSend { sink, msg: M::Pull, .. }) if *sink == tag && own[i] == tag && ctx[i] != tag => {
+                if let Some(k) = step_k {
+                    *cross.entry(k).or_default() += 1;
+                }
+            }
+            _ => {}
+        }
+    }
     let mut s = sc.clone();
-    s.sinks = vec![sc.sinks.get(tag as usize).cloned().unwrap_or_default()];
+    let mut spec = sc.sinks.get(tag as usize).cloned().unwrap_or_default();
+    // in the solo run there is no other subscription to act on
+    for r in spec.react.iter_mut() {
+        if *r == React::PullOther {
+            *r = React::Nothing;
+        }
+    }
+    if spec.react_default == React::PullOther {
+        spec.react_default = React::Nothing;
+    }
+    s.sinks = vec![spec];
     s.attach_first = sc.attach_first && tag == 0;
-    s.schedule = sc
-        .schedule
-        .iter()
-        .filter_map(|st| match *st {
-            Step::Pup { p, owner, act } if owner == tag => Some(Step::Pup { p, owner: 0, act }),
-            Step::Sink { s, act } if s == tag => Some(Step::Sink { s: 0, act }),
-            _ => None,
-        })
-        .collect();
+    s.schedule = vec![];
+    for (k, st) in sc.schedule.iter().enumerate() {
+        match *st {
+            Step::Pup { p, owner, act } if owner == tag => s.schedule.push(Step::Pup { p, owner: 0, act }),
+            Step::Sink { s: x, act } if x == tag => s.schedule.push(Step::Sink { s: 0, act }),
+            _ => {
+                // a step of the other subscription: only its cross-issued pulls concern this one
+                for _ in 0..cross.get(&k).copied().unwrap_or(0) {
+                    s.schedule.push(Step::Sink { s: 0, act: StepSAct::Pull });
+                }
+            }
+        }
+    }
     s
 }
 
@@ -395,16 +448,15 @@ pub fn c13(cx: &Ctx) -> Vec<Finding> {
     }
     for tag in 0..2u8 {
         let inter = project(cx.h, tag);
-        let solo_sc = solo(cx.sc, tag);
+        let solo_sc = solo(cx.sc, cx.h, tag);
         let solo_h = world::run(&solo_sc);
         let alone = project(&solo_h, 0);
         if inter != alone {
             // first difference
             let k = inter.iter().zip(alone.iter()).position(|(a, b)| a != b).unwrap_or(inter.len().min(alone.len()));
-            let cross = inter.iter().any(|e| matches!(e, NEv::Enter(s) if s.contains('X')));
             out.push(finding(
                 "C13",
-                format!("C13:{}({})", if cross { "cross-talk" } else { "differs-from-solo" }, cx.sc.topo.op_name()),
+                format!("C13:differs-from-solo({})", cx.sc.topo.op_name()),
                 format!(
                     "subscription {tag}: interleaved projection differs from its solo run at event {k}: interleaved `{}` vs solo `{}`",
                     render_n(&inter[k.saturating_sub(2)..(k + 3).min(inter.len())]),
@@ -429,5 +481,7 @@ pub fn nt_c13(cx: &Ctx) -> bool {
         .filter_map(|e| if let Ev::Step { tag, .. } = e { Some(*tag) } else { None })
         .collect();
     let switches = tags.windows(2).filter(|w| w[0] != w[1]).count();
-    a && b && switches >= 2
+    let (own, ctx, _) = owners(cx.h);
+    let cross = cx.h.log.iter().enumerate().any(|(i, e)| matches!(e, Ev::Enter(Site::SinkSend { .. })) && own[i] != ctx[i] && ctx[i] != 255 && cx.ix.span_of_enter[i].map_or(false, |s| cx.ix.spans[s].parent.is_some()));
+    a && b && (switches >= 2 || cross)
 }
